@@ -32,6 +32,12 @@ def parsePJ (s : String) : Option (Nat × Nat) :=
   | some [p, j] => if p < 50 && j < 4 then some (p, j) else none
   | _ => none
 
+/-- `P.D.H`: peer, delay of the async response (ticks, 0 = never), time the handler takes when re-invoked (ticks) -/
+def parseSlow (s : String) : Option (Nat × Nat × Nat) :=
+  match (s.splitOn ".").mapM String.toNat? with
+  | some [p, d, h] => if p < 50 && d < 10000000 && h < 10000000 then some (p, d, h) else none
+  | _ => none
+
 def parseEvent (tok : String) : Option Event :=
   match tok.toList with
   | [] => none
@@ -44,6 +50,8 @@ def parseEvent (tok : String) : Option Event :=
     else if c = 't' then (parsePJ arg).map fun (p, j) => .noteRst (peerOf p) j
     else if c = 'y' then (parsePJ arg).map fun (p, j) => .noteAck (peerOf p) j
     else if c = 'a' then (parsePK arg).map fun (p, _) => .rx (peerOf p) .async
+    else if c = 'b' then (parseSlow arg).map fun (p, d, h) => .rx (peerOf p) (.slow d h)
+    else if c = 'I' then arg.toNat?.bind fun d => if d < 10000000 then some (.ioStale d) else none
     else if c = 'f' then (parsePK arg).map fun (p, _) => .asyncFree (peerOf p)
     else if c = 'q' then (parsePK arg).map fun (p, _) => .ping (peerOf p)
     else if c = 'k' then (parsePK arg).map fun (p, _) => .rst (peerOf p)
@@ -89,14 +97,14 @@ def showLive (st : St) : String :=
   "L" ++ toString st.sessions.length ++ "/" ++ toString (st.holders.filter fun h => isAnyObs h.kind).length ++ "/" ++
   toString (st.holders.filter fun h => isNode h.kind).length ++ "/" ++
   toString (st.holders.filter fun h => isAsync h.kind).length ++ "/" ++
-  toString (st.holders.filter fun h => isApp h.kind).length
+  toString (st.holders.filter fun h => isApp h.kind).length ++ " C" ++ toString st.now
 
 def showOutcome (st : St) : Outcome → String
   | .handled sid => "h" ++ showIdx st.events sid
   | .ok => "ok"
   | .skip => "skip"
 
-def initSt : St := St.init [(0, 1), (1, 1)] 4
+def initSt : St := St.init [(0, 1), (1, 1)] 5
 
 def runTokens : List (String × Event) → St → List String → St × List String
   | [], st, acc => (st, acc.reverse)
